@@ -7,7 +7,7 @@
    and, like the agreement with exact geometry on the interval-overlap and coplanar branches, only validated on pairs
    in generic position by the check (not theorems). *)
 From Coq Require Import Reals QArith List Bool.
-From OM Require Import Base.Ops Geom.V3Q Geom.V3R Geom.TriTri Geom.TriTriProofs Geom.Checks Geom.ChecksProofs Geom.RunC12.
+From OM Require Import Base.Ops Geom.V3Q Geom.V3R Geom.TriTri Geom.TriTriProofs Geom.SegTriProofs Geom.Checks Geom.ChecksProofs Geom.RunC12.
 Import ListNotations.
 
 Section Orchestration.
@@ -141,6 +141,42 @@ Print Assumptions tritri_symmetry_refuted.
 Theorem exact_verdict_scale_invariant : forall s t1 t2, 0 < s -> isect_oracle Rops (tsc s t1) (tsc s t2) = isect_oracle Rops t1 t2.
 Proof. exact isect_oracle_scale. Qed.
 Print Assumptions exact_verdict_scale_invariant.
+
+(* The exact oracle against which Triangle::intersects is validated means what it says (over the reals):
+   each verdict of seg_tri is exact for the closed segment [a,b] and the closed triangle (u,v,w) - `Some true` exhibits
+   the common point (parameter -Da/S on the segment, weights s2/S, s3/S, s1/S in the triangle, S the sum of the three
+   signed volumes), `Some false` excludes any common point (both ends strictly on one side of the plane, or the three
+   volumes - the weights of a would-be common point times one common factor - do not share a strict sign). *)
+Theorem oracle_segment_hit_is_a_common_point : forall a b u v w, seg_tri Rops a b u v w = Some true -> seg_meets_tri a b u v w.
+Proof. exact seg_tri_true_sound. Qed.
+Print Assumptions oracle_segment_hit_is_a_common_point.
+
+Theorem oracle_segment_miss_has_no_common_point : forall a b u v w, seg_tri Rops a b u v w = Some false -> ~ seg_meets_tri a b u v w.
+Proof. exact seg_tri_false_sound. Qed.
+Print Assumptions oracle_segment_miss_has_no_common_point.
+
+(* a positive verdict of the oracle: an edge of one triangle meets the other one, hence the closed triangles are not disjoint *)
+Theorem oracle_intersecting_verdict_sound : forall p1 q1 r1 p2 q2 r2,
+  isect_oracle Rops (p1, q1, r1) (p2, q2, r2) = Some true ->
+  an_edge_meets p1 q1 r1 p2 q2 r2 /\ ~ disjoint_tri p1 q1 r1 p2 q2 r2.
+Proof. exact isect_oracle_true_sound. Qed.
+Print Assumptions oracle_intersecting_verdict_sound.
+
+(* a negative verdict: no edge of either triangle meets the other triangle.  PARTIAL with respect to disjointness: that two
+   non-coplanar triangles none of whose edges meets the other are disjoint (their common segment would end on an edge) is
+   not proved here. *)
+Theorem oracle_disjoint_verdict_partial : forall p1 q1 r1 p2 q2 r2,
+  isect_oracle Rops (p1, q1, r1) (p2, q2, r2) = Some false -> ~ an_edge_meets p1 q1 r1 p2 q2 r2.
+Proof. exact isect_oracle_false_no_edge_meets. Qed.
+Print Assumptions oracle_disjoint_verdict_partial.
+
+(* all three verdicts of seg_tri occur (rational instance, evaluated) *)
+Example oracle_verdicts_occur :
+  seg_tri Qops (qv 1 1 (-1)) (qv 1 1 1) (qv 0 0 0) (qv 4 0 0) (qv 0 4 0) = Some true /\
+  seg_tri Qops (qv 5 5 (-1)) (qv 5 5 1) (qv 0 0 0) (qv 4 0 0) (qv 0 4 0) = Some false /\
+  seg_tri Qops (qv 1 1 1) (qv 1 1 2) (qv 0 0 0) (qv 4 0 0) (qv 0 4 0) = Some false /\
+  seg_tri Qops (qv 1 1 0) (qv 1 1 2) (qv 0 0 0) (qv 4 0 0) (qv 0 4 0) = None.
+Proof. exact seg_tri_examples. Qed.
 
 (* hypotheses are satisfiable: a clean two-mesh nested model passes, the tool exits 0 *)
 Example clean_example :
